@@ -9,6 +9,7 @@ import os, re, subprocess, random, hashlib, json
 import kvlib as K
 
 SITES = os.path.join(K.COQ, "theories", "gen", "sites.tsv")
+COVERED = set()     # (flavour/owner pc/peer pc/event) transitions of Sig.v exercised by accepted traces of this run
 
 
 # ------------------------------------------------------------------ program templates
@@ -65,6 +66,9 @@ def templates():
     out.append(("F5", "1", ["trysend 1 ; len", "tryrecv ; len", "trysendrt 2 ; tryrecvrt"]))
     out.append(("F5", "2", ["trysend 1 ; trysend 2", "tryrecvrt ; tryrecvrt", "trysendrt 3 ; drain 1"]))
     out.append(("F5", "0", [S + "trysendrt 1 ; trysendrt 2", R + "recvto 5", R + "tryrecvrt"]))
+    # a full buffer with a parked sender behind it: the realtime receive refills the buffer from the waiter
+    out.append(("F5", "1", [S + "send 1 ; send 2", R + "tryrecvrt ; tryrecvrt", "len ; len"]))
+    out.append(("F5", "1", [S + "mksend 1 7 ; trysendrt 1 ; poll 1 1 ; poll 1 1", R + "tryrecvrt ; tryrecvrt", "len ; trysend 3"]))
     # F6 several blocked senders, one cancelled from the middle, refill, drain
     out.append(("F6", "1", [S + "trysend 1 ; send 2", S + "sendto 3 7", R + "tryrecv ; tryrecv ; drain 0"]))
     out.append(("F6", "1", [S + "trysend 1 ; send 2", S + "mksend 1 3 ; poll 1 1 ; dropf 1", R + "recvto 9 ; recvto 9"]))
@@ -95,8 +99,8 @@ FAMILIES = {
 KINDS = {
     "C01": {"ledger", "O"}, "C02": {"O"}, "C03": {"O", "K", "HBL"}, "C04": {"corrupt", "A", "HB", "ledger", "O"}, "C05": {"ledger", "O"},
     "C06": {"stuck", "A"}, "C07": {"A", "HB", "M"}, "C08": {"O"}, "C09": {"O", "A", "stuck", "ledger"}, "C10": {"O"},
-    "C11": {"O", "stuck"}, "C12": {"O", "K"}, "C13": {"O", "A", "ledger", "stuck", "K", "deadline"}, "C14": {"O", "K", "stuck"},
-    "C15": {"O", "A", "ledger", "stuck", "HB"}, "C16": {"O", "A", "stuck"}, "C17": {"M", "HBL"}, "C19": {"O", "K"},
+    "C11": {"O", "stuck"}, "C12": {"O", "K"}, "C13": {"O", "A", "ledger", "stuck", "K", "deadline"}, "C14": {"O", "K", "stuck", "RT"},
+    "C15": {"O", "A", "ledger", "stuck", "HB"}, "C16": {"O", "A", "stuck"}, "C17": {"M", "HBL", "RT"}, "C19": {"O", "K"},
 }
 
 
@@ -253,6 +257,22 @@ def judge(pid, cap, spec, lines, threads):
                 if not c["now"] or max(c["now"]) < c["now"][0] + c["d"]:
                     fails.append(("deadline", "thread %s: Timeout returned although no clock reading reached the deadline (first reading %s + duration %d; readings %s)"
                                   % (f[1], c["now"][:1], c["d"], c["now"][-4:])))
+    # realtime variants: one attempt at the lock per acquisition; a failed attempt is never followed by another one
+    rt = {}
+    for l in lines:
+        f = l.split(" ")
+        if len(f) >= 4 and f[2] == "OPB":
+            rt[f[1]] = {"op": f[3], "failed": None} if f[3].endswith("rt") else None
+        elif len(f) >= 10 and f[2] == "CAS" and f[3].startswith("L") and rt.get(f[1]):
+            c = rt[f[1]]
+            if c["failed"] is not None:
+                fails.append(("RT", "thread %s: %s went on trying for the internal lock (step %s, %s) after its attempt at step %s had failed: "
+                              "a realtime call waited for the lock" % (f[1], c["op"], f[0], f[9], c["failed"])))
+                rt[f[1]] = None
+            elif int(f[8]) < 256:
+                c["failed"] = f[0]
+        elif len(f) >= 4 and f[2] == "OPE":
+            rt[f[1]] = None
     r = hb_check(events)
     if r:
         fails.append(("HBL" if "chan.wait_list" in r else "HB", r))
@@ -339,11 +359,15 @@ def run_batch(jobs, par=4, timeout=300):
         text.append("Z")
     rc, out = K.sh([K.KMODEL, "h2check"], inp="\n".join(text) + "\n", env=env, timeout=600)
     i = -1
+    cov = set()
     for line in out.split("\n"):
+        if line.startswith("C "):
+            cov.update(line.split()[1:])
         if line.startswith("X "):
             i += 1
         elif i >= 0 and i < len(results) and line[:2] in ("A ", "M ", "K ", "O "):
             results[i][5][line[0]] = line[2:]
+    COVERED.update(cov)
     return results
 
 
@@ -362,6 +386,42 @@ def preemption_specs(lines, nthreads, limit):
                 if to != t:
                     specs.append("pre %d:%d" % (step, to))
     random.Random(1).shuffle(specs)
+    return specs[:limit]
+
+
+def window_specs(lines, nthreads, suffix, limit):
+    """pairs of forced switches around the hand-shake of the signal protocol: away from a thread at one
+    of its protocol events and back a few steps later (the interleavings single switches cannot reach)"""
+    anchors = []
+    for l in lines:
+        m = EV.match(l)
+        if m and m.group(10).startswith("signal.rs") and m.group(3) in ("ACC", "CAS", "STORE", "PARK", "UNPARK", "LOAD"):
+            anchors.append((int(m.group(1)), int(m.group(2))))
+    specs = []
+    rnd = random.Random(len(lines))
+    for (step, t) in anchors:
+        for to in range(nthreads):
+            if to == t:
+                continue
+            for j in (1, 2, 3, 4, 6, 9):
+                specs.append("pre %d:%d %d:%d%s" % (step, to, step + j, t, suffix))
+    rnd.shuffle(specs)
+    return specs[:limit]
+
+
+def freeze_specs(lines, nthreads, limit):
+    """a lock holder stalled for a long stretch right after its acquisition, everybody else running on"""
+    specs, seen = [], {}
+    for l in lines:
+        f = l.split(" ")
+        if len(f) >= 10 and f[2] == "CAS" and f[3].startswith("L") and int(f[8]) >= 256:
+            t = int(f[1])
+            seen[t] = seen.get(t, 0) + 1
+            if seen[t] <= 3:
+                for to in range(nthreads):
+                    if to != t:
+                        specs.append("pre %d:%d hold=%d:%d" % (int(f[0]) + 1, to, t, int(f[0]) + 700))
+    random.Random(7).shuffle(specs)
     return specs[:limit]
 
 
@@ -389,6 +449,10 @@ def explore(prop, tier, seed):
             base += ["rnd %d %d" % (seed * 1000 + i * 50 + k, 60 + 25 * (k % 20)) for k in range(60)] + \
                     ["rnd %d 300 spur=2" % (seed + i), "rnd %d 200 spur=1 tick=3" % (seed + i + 7), "rnd %d 500 hold=1:300" % (seed + i + 9)]
         jobs.append(("%s-%d" % (fam, i), cap, cls, threads, base))
+    if prop in ("C17", "ALL"):
+        # a lock holder stalled for millions of steps while a blocking waiter spins through every phase of its back-off
+        # (repeated failed attempts are logged once with a count): the waiter may enter only after the holder has left
+        jobs.append(("F5-freeze", "1", "h8", ["trysend 1 ; len", "tryrecv ; len"], ["pre 2:1 hold=0:4500000 limit=5000000"]))
     # first pass: base schedules; second pass: single preemptions derived from the seq trace
     import concurrent.futures as cf
     shards = [jobs[k::16] for k in range(16)]
@@ -400,9 +464,13 @@ def explore(prop, tier, seed):
     jobs2 = []
     per = 10 if quick else 400
     for r in allres:
-        if r[2] == "seq":
+        if r[2] == "seq" or r[2].startswith("seq hold="):
             j = next(j for j in jobs if j[0] == r[0])
-            sp = preemption_specs(r[3], len(j[3]), per)
+            suffix = r[2][3:]          # the hold / spur options of the base schedule are kept
+            sp = [s + suffix for s in preemption_specs(r[3], len(j[3]), per if r[2] == "seq" else max(4, per // 2))]
+            sp += window_specs(r[3], len(j[3]), suffix, 6 if quick else 250)
+            if r[2] == "seq":
+                sp += freeze_specs(r[3], len(j[3]), 2 if quick else 12)
             if sp:
                 jobs2.append((j[0], j[1], j[2], j[3], sp))
     shards = [jobs2[k::16] for k in range(16)]
@@ -434,7 +502,11 @@ def explore(prop, tier, seed):
                 fails.append(rec)
             else:
                 other += 1
+    rc, mt = K.sh([K.KMODEL, "sigtransitions"], timeout=120)
+    model_tr = set(mt.split())
     stats = {"executions": len(allres), "distinct_traces": len(distinct), "events": events, "templates": len(tpls),
+             "protocol_transitions_in_model": len(model_tr), "protocol_transitions_exercised": len(COVERED & model_tr),
+             "protocol_transitions_not_exercised": sorted(model_tr - COVERED),
              "families": fams, "distinct_sites_exercised": len(srcs), "failures_outside_cone": other,
              "sample": [{"program": allres[0][4], "schedule": allres[0][2], "first_events": allres[0][3][:12]}] if allres else []}
     return stats, fails
